@@ -6,6 +6,7 @@ mod p_codec;
 mod p_hex;
 mod p_misc;
 mod p_rx;
+mod p_ts;
 use fw::*;
 
 fn exec(line: &str, model: &mut Model) -> Option<Exec> {
@@ -18,6 +19,7 @@ fn exec(line: &str, model: &mut Model) -> Option<Exec> {
         _ if op.starts_with("eid.") || op.starts_with("time.") || op.starts_with("adm.") || op == "ts.string" => p_misc::exec(line, model),
         "validate" | "id" | "idpair" | "info" | "upd" | "seq" => p_misc::exec(line, model),
         "rx" | "fault" | "cor" => p_rx::exec(line, model),
+        "ts.run" => p_ts::exec(line, model),
         _ => None,
     }
 }
@@ -93,6 +95,7 @@ fn main() {
         match prop.as_str() {
             "C18" => p_hex::generate(&mut ctx, &mut rep, &mut emit),
             "C01" | "C02" | "C03" | "C04" | "C15" => p_codec::generate(&prop, &mut ctx, &mut rep, &mut emit),
+            "C09" => p_ts::generate(&mut ctx, &mut rep, &mut emit),
             "C05" | "C06" | "C19" => p_rx::generate(&prop, &mut ctx, &mut rep, &mut emit),
             "C07" | "C08" | "C10" | "C11" | "C12" | "C13" | "C17" => p_misc::generate(&prop, &mut ctx, &mut rep, &mut emit),
             _ => { eprintln!("unknown property {}", prop); std::process::exit(2); }
